@@ -33,6 +33,11 @@ class InjectedFault(Exception):
     pass
 
 
+# (program, schedule) pairs on which the real code and the Lean model disagreed in this process: first candidates
+# of the failing-input search
+MISMATCHES = []
+
+
 # ---------------------------------------------------------------------------------------------
 # generator: DictCache operations that make sense with a worker thread
 
@@ -66,6 +71,73 @@ def gen_ops(rng, maxlen, nkeys=2, subs=True):
         else:
             ops.append([c, 'contains', k])
     return ops
+
+
+def _noise(rng, c, nkeys, nval):
+    k = rng.randrange(nkeys)
+    r = rng.random()
+    if r < 0.3:
+        nval[0] += 1
+        return [c, 'set', k, nval[0]]
+    if r < 0.55:
+        return [c, 'getitem', k]
+    if r < 0.7:
+        return [c, 'preload', [k], False]
+    if r < 0.85:
+        return [c, 'del', k]
+    return [c, 'contains', k]
+
+
+def gen_scenario(rng, nkeys=2):
+    """Programs around the life cycle of ONE key that passes through the worker in every role:
+    written, preloaded (-> short-term key), deleted or overwritten while the preload may still be pending, written
+    again, dropped from the short-term keys (so the next read really goes to the ThreadedStorage), read.  Steps are
+    dropped / repeated / interleaved with operations on other keys at random; ends with reads of every key."""
+    nval = [0]
+    use_sub = rng.random() < 0.25
+    c = 1 if use_sub else 0
+    k = rng.randrange(nkeys)
+    ops = [[0, 'sub', 0]] if use_sub else []
+
+    def val():
+        nval[0] += 1
+        return nval[0]
+    core_steps = [
+        [c, 'set', k, None],
+        [c, 'preload', [k], False],
+        rng.choice([[c, 'del', k], [c, 'del', k], [c, 'set', k, None], [c, 'getitem', k]]),
+        rng.choice([[c, 'set', k, None], [c, 'set', k, None], [c, 'preload', [k], False]]),
+        [c, 'stk', sorted({kk for kk in range(nkeys) if kk != k and rng.random() < 0.3})],
+        [c, 'getitem', k],
+    ]
+    for st in core_steps:
+        if rng.random() < 0.25:
+            ops.append(_noise(rng, rng.choice([0, c]), nkeys, nval))
+        if rng.random() < 0.12:
+            continue                      # drop this step
+        st = list(st)
+        if st[1] == 'set':
+            st[3] = val()
+        ops.append(st)
+        if rng.random() < 0.1:
+            ops.append(list(st) if st[1] != 'set' else [st[0], 'set', st[2], val()])
+    if rng.random() < 0.7:
+        ops += final_reads(ops, nkeys)
+    return ops
+
+
+def final_reads(ops, nkeys, rewrite=False, start_val=1000):
+    """`set_short_term_keys()` + a read of every key of every cache (optionally after writing every key again)"""
+    ncache = 1 + sum(1 for o in ops if o[1] == 'sub')
+    out, v = [], start_val
+    for c in range(ncache):
+        if rewrite:
+            for k in range(nkeys):
+                v += 1
+                out.append([c, 'set', k, v])
+        out.append([c, 'stk', []])
+        out += [[c, 'get', k] for k in range(nkeys)]
+    return out
 
 
 def n_storage_calls(ops):
@@ -267,7 +339,12 @@ def shrink_case(case, fails):
 def make_chooser(case, rng=None):
     pol = case.get('policy', 'random')
     if case.get('schedule') is not None and pol == 'replay':
-        return c20_sched.ReplayChooser(case['schedule'])
+        then = None
+        if case.get('then_p_worker') is not None:
+            then = c20_sched.BiasedChooser(random.Random(case.get('sseed', 0)), case['then_p_worker'])
+        return c20_sched.ReplayChooser(case['schedule'], then)
+    if pol == 'biased':
+        return c20_sched.BiasedChooser(rng or random.Random(case['sseed']), case.get('p_worker', 0.1))
     if pol == 'prefix':
         return c20_sched.PrefixChooser(case['prefix'], case.get('max_preempt', 2))
     return c20_sched.RandomChooser(rng or random.Random(case['sseed']), stick=case.get('stick', 0.5),
@@ -299,9 +376,10 @@ def judge(res, case, r, mod):
 
         def fails(c):
             # a shrunk program needs a new schedule: try a few seeds
-            for sd in range(12):
-                rr = run_scheduled(c['ops'], c['maxsize'], c.get('fail_at'),
-                                   make_chooser(dict(c, policy='random', sseed=sd)))
+            pols = [dict(policy='biased', p_worker=pw, sseed=sd) for pw in (0.03, 0.2, 0.9) for sd in range(3)]
+            pols += [dict(policy='random', sseed=sd) for sd in range(6)]
+            for pol in pols:
+                rr = run_scheduled(c['ops'], c['maxsize'], c.get('fail_at'), make_chooser(dict(c, **pol)))
                 s2, d2 = oracle(c['ops'], rr, c.get('fail_at'))
                 if s2 == sig:
                     found.update(ops=c['ops'], schedule=rr['schedule'], detail=d2)
@@ -322,8 +400,10 @@ def judge(res, case, r, mod):
         res.traces_validated += 1
         diff = compare_model(ops, r, mod)
         if diff and not sig:
-            res.fail('correspondence', 'threaded.model-vs-impl', diff,
-                     dict(case, policy='replay', schedule=r['schedule'], part='threaded'))
+            mc = dict(case, policy='replay', schedule=r['schedule'], part='threaded')
+            res.fail('correspondence', 'threaded.model-vs-impl', diff, mc)
+            if len(MISMATCHES) < 400:
+                MISMATCHES.append(mc)
     return sig
 
 
@@ -347,14 +427,21 @@ def run_batch(ctx, cases, use_model=True, procs=1):
 def random_cases(rng, n, maxlen, fault_frac=0.3):
     cases = []
     for i in range(n):
-        ops = gen_ops(rng, maxlen, nkeys=rng.choice([1, 2, 2, 3]))
+        scenario = rng.random() < 0.35
+        nkeys = rng.choice([1, 2, 2, 3])
+        ops = gen_scenario(rng, nkeys) if scenario else gen_ops(rng, maxlen, nkeys=nkeys)
         fail_at = None
         nc = n_storage_calls(ops)
-        if nc and rng.random() < fault_frac:
+        if nc and rng.random() < (0.1 if scenario else fault_frac):
             fail_at = rng.randrange(nc)
-        cases.append(dict(part='threaded', ops=ops, maxsize=rng.choice([1, 1, 2, 3]), fail_at=fail_at,
-                          policy='random', sseed=rng.getrandbits(32), stick=rng.choice([0.2, 0.5, 0.8]),
-                          p_idle=rng.choice([0.05, 0.12, 0.3])))
+        case = dict(part='threaded', ops=ops, maxsize=rng.choice([1, 1, 2, 3]), fail_at=fail_at,
+                    sseed=rng.getrandbits(32))
+        if rng.random() < (0.6 if scenario else 0.25):
+            # the worker lags behind (pending loads) or runs ahead
+            case.update(policy='biased', p_worker=rng.choice([0.03, 0.1, 0.25, 0.5, 0.9]))
+        else:
+            case.update(policy='random', stick=rng.choice([0.2, 0.5, 0.8]), p_idle=rng.choice([0.05, 0.12, 0.3]))
+        cases.append(case)
     return cases
 
 
@@ -543,9 +630,40 @@ def run(ctx):
     return res
 
 
+def mismatch_candidates(rng, limit):
+    """Failing-input candidates derived from trace mismatches: the same program under the same schedule, run to
+    the END and followed by extra operations that expose a corrupted `_loaded/_waiting_for_load/disk`: read every key
+    with empty short-term keys, as is and after writing every key once more; the recorded schedule is followed as
+    far as it goes, then the worker lags / is fair / runs ahead."""
+    seen, out = set(), []
+    for mc in MISMATCHES:
+        key = repr((mc['ops'], mc['maxsize'], mc.get('fail_at')))
+        if key in seen:
+            continue
+        seen.add(key)
+        nkeys = 1 + max([o[2] for o in mc['ops'] if o[1] in ('set', 'getitem', 'get', 'del', 'contains')] +
+                        [k for o in mc['ops'] if o[1] in ('preload', 'stk') for k in o[2]] + [0])
+        for rewrite in (False, True):
+            ops = mc['ops'] + final_reads(mc['ops'], nkeys, rewrite=rewrite)
+            for pw in (0.0, 0.1, 0.5, 1.0):
+                out.append(dict(part='threaded', ops=ops, maxsize=mc['maxsize'], fail_at=mc.get('fail_at'),
+                                policy='replay', schedule=mc['schedule'], then_p_worker=pw,
+                                sseed=rng.getrandbits(32), from_mismatch=True))
+        if len(out) >= limit:
+            break
+    return out
+
+
 def search(ctx):
     rng = ctx.sub_rng('threaded-search')
+    res = core.Result()
+    cand = mismatch_candidates(rng, 1200 if ctx.quick else 6000)
+    res.extra['threaded_search_mismatch_candidates'] = len(cand)
+    if cand:
+        res.merge(run_batch(ctx, cand, use_model=False, procs=8))
+        if any(f.kind == 'property' for f in res.failures):
+            return res
     cases = [dict(c, part='threaded') for c in CORPUS] + random_cases(rng, 1500 if ctx.quick else 40000, 8)
-    res = run_batch(ctx, cases, use_model=False, procs=8)
+    res.merge(run_batch(ctx, cases, use_model=False, procs=8))
     res.merge(stress(ctx, 40 if ctx.quick else 1000, 12, procs=8))
     return res
